@@ -28,6 +28,11 @@ type validateArgs struct {
 	// served under several URLs (a /v1/ and a /latest/ name of one registry entry). Absent (the default): every Loader call
 	// unmarshals a fresh object, as before.
 	Aliases [][2]string `json:"aliases"`
+	// MaxLoads > 0: a Loader that gives up — it answers the first MaxLoads requests and fails every later one, and the reply carries
+	// "overrun": true. For universes whose resolution must ask for each document at most once: a load/resolve recursion that would
+	// never end with a Loader that keeps answering (a stack overflow that kills the process) then shows as an overrun instead.
+	// 0 (the default): the Loader always answers, as before.
+	MaxLoads int `json:"maxLoads"`
 }
 
 type universe struct {
@@ -35,6 +40,8 @@ type universe struct {
 	opts   *jsonschema.ResolveOptions
 	log    []string
 	loaded []*jsonschema.Schema
+	// overrun: the Loader was asked more often than maxLoads allows
+	overrun bool
 }
 
 // buildUniverse unmarshals the root and prepares a Loader over the documents.
@@ -71,6 +78,10 @@ func buildUniverse(a *validateArgs) (*universe, error, error) {
 	if hasLoader {
 		u.opts.Loader = func(uri *url.URL) (*jsonschema.Schema, error) {
 			key := uri.String()
+			if a.MaxLoads > 0 && len(u.log) >= a.MaxLoads {
+				u.overrun = true
+				return nil, errors.New("loader gave up: too many requests")
+			}
 			u.log = append(u.log, key)
 			if len(alias) > 0 {
 				if t, ok := alias[key]; ok {
@@ -183,7 +194,11 @@ func doValidate(ap *validateArgs) (any, error) {
 		}
 		rs, err := u.root.Resolve(u.opts)
 		if err != nil {
-			return map[string]any{"outcome": "resolve-error", "detail": err.Error(), "log": u.log}, nil
+			res := map[string]any{"outcome": "resolve-error", "detail": err.Error(), "log": u.log}
+			if u.overrun {
+				res["overrun"] = true
+			}
+			return res, nil
 		}
 		var verdicts []string
 		if a.GInsts != nil {
@@ -227,8 +242,12 @@ func doValidate(ap *validateArgs) (any, error) {
 		if targets == nil {
 			targets = []jsonschema.VerifTarget{}
 		}
-		return map[string]any{"outcome": "resolved", "verdicts": verdicts, "log": u.log, "draft": draft,
-			"targets": targets}, nil
+		res := map[string]any{"outcome": "resolved", "verdicts": verdicts, "log": u.log, "draft": draft,
+			"targets": targets}
+		if u.overrun {
+			res["overrun"] = true
+		}
+		return res, nil
 	}
 }
 
